@@ -293,6 +293,13 @@ func c07r2r3(c *core.Ctx) {
 				}
 				idx, isParam := paramIndexOf(f, v)
 				loop := inLoop(f, call)
+				// an internal visitor: a function parameter whose type mentions an unexported type cannot be handed
+				// in by user code; when every call site passes a function literal, that literal is what runs here, and
+				// a literal that itself calls user code in a loop is decided by the clause on literals below
+				if isParam && f.Lit == nil && internalFuncType(v.Type()) && allActualsLiterals(m, f, idx) {
+					c.OK("C07/R2", fmt.Sprintf("%s calls %s (internal visitor)", f.Name, v.Name()), c.At(call.Pos()), "the callback type is not constructible outside the package and every call site passes a function literal")
+					return
+				}
 				if f.Lit == nil && isParam && s.held != "" {
 					lockedParam[paramKey{f, idx}] = true
 				}
@@ -1237,4 +1244,65 @@ func unreachableUnder(m *core.Model, caller *core.Func, call *ast.CallExpr, f *c
 		}
 	}
 	return false
+}
+
+// internalFuncType: t is a function type whose parameters or results mention an unexported named type of this module
+// (user code cannot write a function of that type).
+func internalFuncType(t types.Type) bool {
+	sig, ok := t.Underlying().(*types.Signature)
+	if !ok {
+		return false
+	}
+	unexp := func(tt types.Type) bool {
+		for {
+			switch x := tt.(type) {
+			case *types.Pointer:
+				tt = x.Elem()
+				continue
+			case *types.Slice:
+				tt = x.Elem()
+				continue
+			case *types.Named:
+				return x.Obj().Pkg() != nil && !x.Obj().Exported()
+			}
+			return false
+		}
+	}
+	for i := 0; i < sig.Params().Len(); i++ {
+		if unexp(sig.Params().At(i).Type()) {
+			return true
+		}
+	}
+	for i := 0; i < sig.Results().Len(); i++ {
+		if unexp(sig.Results().At(i).Type()) {
+			return true
+		}
+	}
+	return false
+}
+
+// allActualsLiterals: every static call site of f passes a function literal (or a method value / function of the
+// package) for parameter idx - never a value that comes from one of the caller's own parameters.
+func allActualsLiterals(m *core.Model, f *core.Func, idx int) bool {
+	n := 0
+	for _, cs := range m.CallSites() {
+		if cs.Callee != f {
+			continue
+		}
+		n++
+		if idx >= len(cs.Call.Args) {
+			return false
+		}
+		switch a := ast.Unparen(cs.Call.Args[idx]).(type) {
+		case *ast.FuncLit:
+		case *ast.SelectorExpr:
+			// a bound method of an internal helper value (finder.visit)
+			if sel, ok := m.Info.Selections[a]; !ok || sel.Kind() != types.MethodVal {
+				return false
+			}
+		default:
+			return false
+		}
+	}
+	return n > 0
 }
